@@ -29,6 +29,22 @@ HARNESSES = {
     'string_seq': {'san': 'asan', 'cxxflags': ['-fno-sanitize=nonnull-attribute']},
 }
 
+# Second compiler: the sequential harnesses are built once more with g++ 12 -O2 (same decoder, same oracles, same replay tapes) and run in
+# the thorough tier; code whose behaviour depends on what one compiler makes of undefined or unspecified constructs shows up as a difference.
+def _gcc(name, base=None):
+    spec = dict(HARNESSES[base or name])
+    spec.update({'cxx': 'g++', 'opt': '-O2', 'source': spec.get('source', (base or name) + '.cpp'), 'replay_as': base or name})
+    spec['cxxflags'] = [f for f in spec.get('cxxflags', []) if not f.startswith('-DVERIF_HARNESS_NAME')]
+    HARNESSES[name + '_gcc'] = spec
+for _h in ('radix_seq', 'seqcont_seq', 'hashmap_seq', 'holders_seq', 'unique_seq', 'bits_seq', 'guard_seq', 'qs_seq', 'printf_diff',
+           'rbtree_seq', 'interval_seq', 'pheap_seq', 'string_seq', 'slab_seq', 'parsers_fuzz'):
+    _gcc(_h)
+
+def gcc_run(harness, cases, sizes, enum=False):
+    t = {'rc': rc(cases, sizes=sizes, workers=8)}
+    if enum: t['enum'] = True
+    return {'harness': harness + '_gcc', 'thorough': t}
+
 def rc(cases, size=100, scale=4, workers=None, sizes=None):
     d = {'cases': cases, 'size': size, 'scale': scale}
     if workers: d['workers'] = workers
@@ -68,7 +84,7 @@ PROPS['C13'] = {
             'accessors, backward links and in_list flags). Non-trivial: the element count crossed a growth threshold and shrank again, or a '
             'copy/move/swap/assign between two non-empty containers happened (intrusive: a splice of two non-empty lists or a mid insert and '
             'mid erase); distinct = hash of the decoded history.',
-    'required_tags': ['kind-%d' % k for k in range(18)] + ['equal-but-not-bytewise', 'grew-then-shrank', 'pair-op-nonempty', 'splice-nonempty', 'sv-swap-inline-heap', 'sv-move-inline'],
+    'required_tags': ['kind-%d' % k for k in range(24)] + ['alias-arg-realloc', 'alias-arg-in-place', 'resize-rvalue-multi', 'sv-self-swap-inline', 'assign-from-owned-copy', 'assign-from-owned-move', 'stack-push-top', 'equal-but-not-bytewise', 'grew-then-shrank', 'pair-op-nonempty', 'splice-nonempty', 'sv-swap-inline-heap', 'sv-move-inline'],
     'min_cases': {'quick': 20000, 'thorough': 400000},
     'level_text': 'generated operation histories against std::vector/std::deque reference sequences, compared after every operation; held on everything generated',
     'level_note': 'trusts the std containers as reference, ASan+UBSan and the exact-size tracking allocator for the own-storage clause; the state of a moved-from container is not asserted, it is only required to stay readable',
@@ -444,3 +460,22 @@ PROPS['C05'] = {
 }
 
 NOT_APPLICABLE = {}
+
+# ---- second-compiler runs (thorough tier only)
+PROPS['C06']['runs'].append(gcc_run('rbtree_seq', 40000, [60, 100, 200]))
+PROPS['C07']['runs'].append(gcc_run('interval_seq', 30000, [60, 100, 200]))
+PROPS['C08']['runs'].append(gcc_run('pheap_seq', 30000, [60, 100, 200]))
+PROPS['C09']['runs'].append(gcc_run('radix_seq', 40000, [60, 100, 200]))
+PROPS['C11']['runs'].append(gcc_run('qs_seq', 30000, [60, 100, 200]))
+PROPS['C12']['runs'].append(gcc_run('guard_seq', 30000, [60, 100]))
+PROPS['C13']['runs'].append(gcc_run('seqcont_seq', 40000, [60, 100, 200]))
+PROPS['C14']['runs'].append(gcc_run('hashmap_seq', 20000, [60, 100, 200]))
+PROPS['C15']['runs'].append(gcc_run('string_seq', 40000, [40, 80, 160]))
+PROPS['C16']['runs'].append(gcc_run('unique_seq', 20000, [40, 80]))
+PROPS['C16']['runs'].append(gcc_run('seqcont_seq', 20000, [60, 100, 200]))
+PROPS['C17']['runs'].append(gcc_run('holders_seq', 60000, [40, 80, 160]))
+PROPS['C18']['runs'].append(gcc_run('bits_seq', 20000, [60, 100, 200]))
+PROPS['C19']['runs'].append(gcc_run('printf_diff', 80000, [30, 60, 120]))
+PROPS['C20']['runs'].append(gcc_run('parsers_fuzz', 40000, [30, 60, 120]))
+for _p in ('C01', 'C02', 'C03'):
+    PROPS[_p]['runs'].append(gcc_run('slab_seq', 8000, [60, 120, 250]))
